@@ -38,13 +38,17 @@ DTYPES = [("float", float, ["012", "102030"]),
           ("object", object, ["012", "abc"])]
 
 # (name, kind in the specification, value or None=per renaming)
+# (the numpy scalar forms are what a sentinel read from an array / a pandas column is: np.float64 is a subclass
+#  of float, np.int64 and np.str_ are not subclasses of int / are subclasses of str)
 SENTINELS = [("nan", "nan"), ("None", "none"), ("-1", "num"), ("reserved-number", "num"),
-             ("''", "str"), ("'nan'", "str"), ("'bb'", "str")]
+             ("''", "str"), ("'nan'", "str"), ("'bb'", "str"),
+             ("np.float64(nan)", "nan"), ("np.int64(-1)", "num"), ("np.str_('bb')", "str")]
 
 
 def sentinel_value(name, ren):
     return {"nan": np.nan, "None": None, "-1": -1, "reserved-number": RESERVED_NUMBER[ren],
-            "''": "", "'nan'": "nan", "'bb'": "bb"}[name]
+            "''": "", "'nan'": "nan", "'bb'": "bb", "np.float64(nan)": np.float64("nan"),
+            "np.int64(-1)": np.int64(-1), "np.str_('bb')": np.str_("bb")}[name]
 
 
 def storable(dname, skind):
